@@ -461,6 +461,60 @@ fn ref_lengths<const N: usize>(w: &[u32; N]) -> [usize; N] {
     len
 }
 
+/// the same reference merge over (non-NaN) f32 weights: ties -- including equal infinities -- go to the lower index.
+/// reference merge WITHOUT a heap: repeatedly take the two smallest by (weight, index); the merged node gets
+/// the next index. Returns the codeword lengths.
+fn ref_lengths_f32<const N: usize>(w: &[f32; N]) -> [usize; N] {
+    let mut weight = [0f32; 8];
+    let mut alive = [false; 8];
+    let mut parent = [usize::MAX; 8];
+    let mut i = 0;
+    while i < N {
+        weight[i] = w[i];
+        alive[i] = true;
+        i += 1;
+    }
+    let mut next = N;
+    let mut round = 0;
+    while round + 1 < N {
+        let mut a = usize::MAX;
+        let mut b = usize::MAX;
+        let mut i = 0;
+        while i < next {
+            if alive[i] {
+                if a == usize::MAX || weight[i] < weight[a] {
+                    b = a;
+                    a = i;
+                } else if b == usize::MAX || weight[i] < weight[b] {
+                    b = i;
+                }
+            }
+            i += 1;
+        }
+        alive[a] = false;
+        alive[b] = false;
+        weight[next] = weight[a] + weight[b];
+        alive[next] = true;
+        parent[a] = next;
+        parent[b] = next;
+        next += 1;
+        round += 1;
+    }
+    let mut len = [0usize; N];
+    let mut i = 0;
+    while i < N {
+        let mut x = i;
+        let mut guard = 0;
+        while parent[x] != usize::MAX && guard < 8 {
+            x = parent[x];
+            len[i] += 1;
+            guard += 1;
+        }
+        i += 1;
+    }
+    len
+}
+
 macro_rules! huffman {
     ($name:ident, $N:expr, $unw:expr) => {
         harness!($name, unwind = $unw, |s| {
@@ -595,6 +649,9 @@ harness!(huffman_float_n3, unwind = 8, |s| {
         let mut bits = [false; 4];
         let n = huff_suffix(&enc, sym, &mut bits).unwrap();
         assert!(n >= 1 && n <= 2);
+        // ties (equal weights, zeros, equal infinities) are broken by symbol index exactly as for integer weights
+        let want = ref_lengths_f32::<3>(&w);
+        assert!(n == want[sym]);
         let mut pos = n;
         let d = dec.decode_symbol(core::iter::from_fn(|| {
             if pos > 0 {
@@ -629,6 +686,14 @@ harness!(huffman_float_n2, unwind = 6, |s| {
         let mut bits = [false; 4];
         let n = huff_suffix(&enc, sym, &mut bits).unwrap();
         assert!(n == 1);
+        // with two symbols only the ORDER of the weights (ties by index) can matter: the codeword equals the one the
+        // integer constructor assigns to order-isomorphic integer weights
+        let ranks = [(w[0] > w[1]) as u32, (w[1] > w[0]) as u32];
+        let ienc = EncoderHuffmanTree::from_probabilities::<u32, _>(ranks.iter());
+        let mut ibits = [false; 4];
+        let m = huff_suffix(&ienc, sym, &mut ibits).unwrap();
+        assert!(m == 1 && ibits[0] == bits[0]);
+        core::mem::forget(ienc);
         let mut pos = n;
         let d = dec.decode_symbol(core::iter::from_fn(|| {
             if pos > 0 {
